@@ -61,3 +61,15 @@ package api
 //@ func (*Decoder).Pos props C18
 //@   requires self != nil
 //@   ensures result == self.i
+
+// CheckTrailings: nil exactly when only white space follows the decoded value
+// (C01, C02); otherwise a SyntaxError positioned at the first offending byte,
+// inside the input (C07).
+//@ pure func isSpace(c byte) bool = c == 0x20 || c == 0x09 || c == 0x0d || c == 0x0a
+//@ func (*Decoder).CheckTrailings props C01,C02
+//@   requires self != nil && 0 <= self.i && self.i <= len(self.s)
+//@   ensures (result == nil) <==> (forall k int :: self.i <= k && k < len(self.s) ==> isSpace(self.s[k]))
+//@   ensures[C07] result != nil ==> (dyntype(result) == typeid(SyntaxError) && self.i <= cast(SyntaxError, result).Pos && cast(SyntaxError, result).Pos < len(self.s) && !isSpace(self.s[cast(SyntaxError, result).Pos]) && same(cast(SyntaxError, result).Src, self.s))
+//@   loop 0: invariant same(buf, self.s) && self.i <= pos && pos <= len(buf)
+//@   loop 0: invariant forall k int :: self.i <= k && k < pos ==> isSpace(buf[k])
+//@   loop 0: decreases len(buf) - pos
